@@ -221,7 +221,7 @@ _MORE = {
     "C14": "failing methods / operator nodes / partials / lambdas (call location); exception objects as return values under every resource; the program's own error ending the call before a node failure is observed is accepted; a node raising with an explicit cause of its own; a failing await next to a sibling await; a failing node after a reconfiguration.",
     "C15": "executor creation / compose failing inside a history are violations (not harness errors); an executor with target AND exclusion that is only created; the priority rule after reconfigurations; two / three overlapping awaits of one AsyncDAG object (A || (B ; C)).",
     "C16": "decorated methods across threads; rendezvous of two calls; first calls of a DAG with pending setup nodes from two threads; two pooled calls; failing nested builds; every module-level lock of tawazi owned by the baton scheduler.",
-    "C17": "histories of awaits on one AsyncDAG object (HIST oracle); driver serves only running nodes and reports starvation; internal errors of the async flavour.",
+    "C17": "histories of awaits on one AsyncDAG object (HIST oracle); driver serves only running nodes and reports starvation; internal errors of the async flavour; coroutines created up front; A || (B ; C) with pending setup nodes and a final probe await; cache file + pending setup node history compared between the flavours.",
     "C18": "keyword / indexed / flag dependencies in the round trips; defaulted argument not repeated at restart; executor constructed before the file is (re)written.",
     "C19": "tag equal to another node's id, ambiguous tag shadowing an id; chains of setup nodes composed after a call / after setup() / before anything ran; identity of carried setup results; a refused compose leaves the original untouched; nodes described with unpack_to / twz_unpack_to as outputs and inputs of the composed DAG.",
     "C20": "factory-made DAG objects sharing a qualname; thirteen calls of one inner DAG; stateful node functions (flat vs nested differential); defaulted parameters forwarded to inner DAGs; pass-through parameters; nested composed DAGs.",
